@@ -263,6 +263,8 @@ class Ctx:
         """Returns {id: [verdict elems...]} ; every record must get exactly one verdict line."""
         if not records:
             return {}
+        if self.tier != "quick":
+            timeout = max(timeout, 3 * 3600)       # the thorough tier judges ten times as many records, possibly on a busy machine
         module = module if os.path.isabs(module) else os.path.join(SPEC, module)
         cfg = cfg if os.path.isabs(cfg) else os.path.join(SPEC, cfg)
         n = len(records)
